@@ -124,8 +124,40 @@ type AstBlock struct {
 	Index   int
 	HasRefs bool
 	Body    []ast.Stmt
-	Phi     []ast.Stmt
-	Exit    ast.Stmt
+	// Phi holds the assignments to the phi variables of each successor,
+	// keyed by the successor's position in the block's successor list:
+	// they must only happen when that edge is taken, as the value a phi
+	// variable had before may still be needed along the other edge.
+	// Assignments whose edge is unknown are kept under anyEdge.
+	Phi  map[int][]ast.Stmt
+	Exit ast.Stmt
+}
+
+// anyEdge is the AstBlock.Phi key for assignments performed whichever successor is taken.
+const anyEdge = -1
+
+// phiEdgeSucc returns the position in the predecessor's successor list
+// of the edge behind block.Preds[predIdx], or anyEdge if there is no such edge.
+func phiEdgeSucc(block *ssa.BasicBlock, predIdx int) int {
+	pred := block.Preds[predIdx]
+	nth := 0 // a conditional jump may have both of its edges arrive at block
+	for _, p := range block.Preds[:predIdx] {
+		if p == pred {
+			nth++
+		}
+	}
+	found := anyEdge
+	for succIdx, succ := range pred.Succs {
+		if succ != block {
+			continue
+		}
+		found = succIdx
+		if nth == 0 {
+			break
+		}
+		nth--
+	}
+	return found
 }
 
 // parallelAssign merges single assignments into one tuple assignment,
@@ -785,8 +817,12 @@ func (fc *funcConverter) convertBlock(astFunc *AstFunc, ssaBlock *ssa.BasicBlock
 					return err
 				}
 
-				blockIdx := ssaBlock.Preds[predIdx].Index
-				astFunc.Blocks[blockIdx].Phi = append(astFunc.Blocks[blockIdx].Phi, ah.AssignStmt(ast.NewIdent(phiName), edgeExpr))
+				predBlock := astFunc.Blocks[ssaBlock.Preds[predIdx].Index]
+				if predBlock.Phi == nil {
+					predBlock.Phi = make(map[int][]ast.Stmt)
+				}
+				succIdx := phiEdgeSucc(ssaBlock, predIdx)
+				predBlock.Phi[succIdx] = append(predBlock.Phi[succIdx], ah.AssignStmt(ast.NewIdent(phiName), edgeExpr))
 			}
 		case *ssa.Range:
 			xExpr, err := fc.convertSsaValue(instr.X)
@@ -1185,7 +1221,16 @@ func (fc *funcConverter) convertToStmts(ssaFunc *ssa.Function) ([]ast.Stmt, erro
 
 		// The phi nodes of a block are evaluated in parallel: one phi may take
 		// the value another phi of the same block had on the previous iteration.
-		blockStmts := &ast.BlockStmt{List: append(block.Body, parallelAssign(block.Phi)...)}
+		blockStmts := &ast.BlockStmt{List: block.Body}
+		if ifStmt, ok := block.Exit.(*ast.IfStmt); ok {
+			// Each branch only assigns the phi variables of its own target.
+			blockStmts.List = append(blockStmts.List, parallelAssign(block.Phi[anyEdge])...)
+			ifStmt.Body.List = append(parallelAssign(block.Phi[0]), ifStmt.Body.List...)
+			elseStmt := ifStmt.Else.(*ast.BlockStmt)
+			elseStmt.List = append(parallelAssign(block.Phi[1]), elseStmt.List...)
+		} else {
+			blockStmts.List = append(blockStmts.List, parallelAssign(append(block.Phi[anyEdge], block.Phi[0]...))...)
+		}
 		blockStmts.List = append(blockStmts.List, block.Exit)
 		if block.HasRefs {
 			stmts = append(stmts, &ast.LabeledStmt{Label: fc.getLabelName(block.Index), Stmt: blockStmts})
